@@ -61,6 +61,7 @@ type scen struct {
 	dabt   int    // DA block time ms (0 = the block time); the submitters' retry back-off is derived from it
 	ttl    int    // DA mempool TTL in DA blocks (0 = 1): a rejected submission is retried after dabt*ttl
 	gas    bool   // non-default gas configuration (price 1, multiplier 2): rejected submissions escalate the price
+	xagg   int    // agg: the execution layer's GetTxs takes N ms WHATEVER the context says (a remote component that winds a cancelled call down slowly)
 }
 
 func (s scen) line() string {
@@ -83,6 +84,9 @@ func (s scen) line() string {
 	}
 	if s.gas {
 		x += " gas=1"
+	}
+	if s.xagg > 0 {
+		x += fmt.Sprintf(" xagg=%d", s.xagg)
 	}
 	return fmt.Sprintf("run mode=%s future=%d slow=%d lazy=%d bt=%d span=%d prod=%d%s", s.mode, s.future, s.slow, l, s.bt, s.span, s.prod, x)
 }
@@ -111,6 +115,13 @@ func Gen(r *hx.Rng, tier string, w io.Writer) {
 		// rejected, then accepted at an escalated gas price, with a non-default gas configuration: both submission
 		// loops and the includer touch the manager's gas settings concurrently (race detector)
 		scen{mode: "agg", bt: 40, span: 900, daf: "flaky", dabt: 20, gas: true},
+		// a slow execution layer on the AGGREGATOR: a reaping round (GetTxs) is in flight when the stop request arrives and
+		// takes 1.2 s to come back whatever the context says.  Reaper.Start may return that much later (inside the bound),
+		// but when Run has returned NOTHING the node started may still be running (leak monitor)
+		scen{mode: "agg", bt: 50, span: 500, xagg: 1200},
+		// the DA layer answers one submission in three with "context canceled" (a proxy that timed out) while the node is
+		// NOT stopping: the submission loops must live on (alive-at-stop and progress monitors)
+		scen{mode: "agg", bt: 50, span: 900, daf: "canceled", dabt: 25},
 	)
 	n := 2
 	if tier == "thorough" {
@@ -133,7 +144,7 @@ func Gen(r *hx.Rng, tier string, w io.Writer) {
 			s.slow = 20 + r.Intn(150)
 		}
 		if s.mode == "agg" && r.Chance(45) {
-			s.daf = []string{"reject", "flaky", "error"}[r.Intn(3)]
+			s.daf = []string{"reject", "flaky", "error", "canceled"}[r.Intn(4)]
 			s.dabt = []int{10, 20, 60, 200}[r.Intn(4)]
 			s.ttl = []int{0, 1, 50, 200}[r.Intn(4)]
 			s.gas = r.Chance(60)
@@ -167,6 +178,7 @@ type execD struct {
 	n       int
 	finals  []uint64
 	takes   time.Duration // every ExecuteTxs takes this long (SetFinal twice as long); cancelled -> ctx.Err()
+	getTxs  time.Duration // GetTxs takes this long, context or not
 }
 
 func (e *execD) work(ctx context.Context, d time.Duration) error {
@@ -185,6 +197,9 @@ func (e *execD) InitChain(context.Context, time.Time, uint64, string) ([]byte, u
 	return append([]byte(nil), hx.GenesisRoot...), 1 << 20, nil
 }
 func (e *execD) GetTxs(context.Context) ([][]byte, error) {
+	if e.getTxs > 0 {
+		time.Sleep(e.getTxs)
+	}
 	e.mu.Lock()
 	defer e.mu.Unlock()
 	out := e.pending
@@ -296,6 +311,10 @@ func (d *faultDA) fault() error {
 		if d.n%3 != 0 {
 			return fmt.Errorf("da: connection refused")
 		}
+	case "canceled":
+		if d.n%3 == 1 {
+			return context.Canceled // what a DA client answers when ITS request context ended; the node's has not
+		}
 	}
 	return nil
 }
@@ -331,6 +350,9 @@ func newNode(s scen, aggregator bool, da *hx.DA, genesisTime time.Time) (*nodeEn
 	e := &nodeEnv{exec: &execD{}, ds: hx.NewLogDS(nil)}
 	if !aggregator && s.xexec > 0 {
 		e.exec.takes = time.Duration(s.xexec) * time.Millisecond
+	}
+	if aggregator && s.xagg > 0 {
+		e.exec.getTxs = time.Duration(s.xagg) * time.Millisecond
 	}
 	root, err := os.MkdirTemp(bm.WorkDir(), "c13-")
 	if err != nil {
@@ -519,18 +541,73 @@ func liveLoops(ignore map[string]bool) map[string]string {
 	return out
 }
 
+// repoGoroutines lists the goroutines that did not exist at the baseline and have a function of the repository on their
+// stack: root function of the repository on that stack (short) -> state.
+func repoGoroutines(ignore map[string]bool) map[string]string {
+	buf := make([]byte, 1<<20)
+	for {
+		n := runtime.Stack(buf, true)
+		if n < len(buf) {
+			buf = buf[:n]
+			break
+		}
+		buf = make([]byte, 2*len(buf))
+	}
+	out := map[string]string{}
+	const pfx = "github.com/evstack/ev-node/"
+	for _, g := range strings.Split(string(buf), "\n\n") {
+		m := goIDRe.FindStringSubmatch(g)
+		if m == nil || ignore[m[1]] {
+			continue
+		}
+		lines := strings.Split(g, "\n")
+		root := ""
+		for _, l := range lines[1:] {
+			if strings.HasPrefix(l, pfx) { // a function frame (the "created by" line starts differently)
+				root = l
+			}
+		}
+		if root == "" {
+			continue
+		}
+		root = strings.TrimPrefix(root, pfx)
+		if i := strings.LastIndex(root, "("); i > 0 && strings.HasSuffix(root, ")") {
+			root = root[:i] // drop the arguments
+		}
+		// keep "pkg.Func" / "pkg.(*T).Method": drop the directories before the package
+		cut := root
+		if j := strings.Index(cut, ".("); j > 0 {
+			cut = cut[:j]
+		}
+		if i := strings.LastIndex(cut, "/"); i >= 0 {
+			root = root[i+1:]
+		}
+		state := ""
+		if i := strings.IndexByte(lines[0], '['); i >= 0 {
+			state = strings.TrimSuffix(lines[0][i+1:], "]:")
+		}
+		out[root] = state
+	}
+	return out
+}
+
 type stopResult struct {
 	runTook  time.Duration
+	stopAt   time.Time
 	returned bool
 	runErr   error
 	loopTook map[string]time.Duration // loops that were alive at cancel
 	late     map[string]string        // loop -> reason (alive after promptBound)
+	atStop   map[string]string        // the loops that were alive at the stop request
+	leaked   map[string]string        // goroutines of the repository's code still alive after Run returned: root function -> state
 }
 
 func (e *nodeEnv) stop() stopResult {
 	res := stopResult{loopTook: map[string]time.Duration{}, late: map[string]string{}}
 	alive := liveLoops(e.baseline)
+	res.atStop = alive
 	t0 := time.Now()
+	res.stopAt = t0
 	e.cancel()
 	tick := time.NewTicker(20 * time.Millisecond)
 	defer tick.Stop()
@@ -543,6 +620,14 @@ func (e *nodeEnv) stop() stopResult {
 				if _, ok := res.loopTook[l]; !ok {
 					res.loopTook[l] = res.runTook
 				}
+			}
+			// Run has returned: nothing the node's code started since Run began may still be running (grace: 600 ms)
+			for i := 0; ; i++ {
+				res.leaked = repoGoroutines(e.baseline)
+				if len(res.leaked) == 0 || i >= 12 {
+					break
+				}
+				time.Sleep(50 * time.Millisecond)
 			}
 			return res
 		case <-tick.C:
@@ -670,6 +755,16 @@ func metaU64(st storepkg.Store, key string) uint64 {
 type blockRec struct {
 	hash []byte
 	txs  [][]byte
+	time time.Time
+}
+
+func keys(m map[string]string) []string {
+	var out []string
+	for k := range m {
+		out = append(out, k)
+	}
+	sort.Strings(out)
+	return out
 }
 
 // checkChain: C01 on a stopped node's store (copied from streams/prod.checkChain, reduced to what holds without
@@ -752,7 +847,7 @@ func checkChain(c *hx.Ctx, who string, e *nodeEnv, m *block.Manager) (chain []bl
 		if d.Metadata == nil || d.Metadata.Height != k || d.Metadata.ChainID != e.gen.ChainID {
 			bad("data-metadata", fmt.Sprintf("height %d", k))
 		}
-		chain = append(chain, blockRec{hash: sh.Hash(), txs: txs})
+		chain = append(chain, blockRec{hash: sh.Hash(), txs: txs, time: sh.Time()})
 		prev, prevTime = sh, sh.Time()
 	}
 	if errS == nil && st.LastBlockHeight == uint64(len(chain)) && len(chain) > 0 && !bytes.Equal(st.AppHash, root) {
@@ -851,6 +946,59 @@ func runNode(c *hx.Ctx, s scen, who string, aggregator bool, da *hx.DA, span tim
 	ch, ok := checkChain(c, who, e, m)
 	out.inv = ok
 	out.blocks = len(ch)
+	// every worker of the mode was alive when the stop request came (a loop that returned earlier without an error
+	// reaching Run is an activity that silently ended while the node was running)
+	want := []string{"RetrieveLoop", "HeaderStoreRetrieveLoop", "DataStoreRetrieveLoop", "SyncLoop", "DAIncluderLoop"}
+	if aggregator {
+		want = []string{"AggregationLoop", "Reaper.Start", "HeaderSubmissionLoop", "DataSubmissionLoop", "DAIncluderLoop"}
+	}
+	for _, l := range want {
+		if _, ok := res.atStop[l]; !ok {
+			out.inv = false
+			c.Report("C13/world/loop-exited-while-running/"+l, fmt.Sprintf("%s: %s was no longer running at the stop request (Run had not returned, no error reported); alive: %v", who, l, keys(res.atStop)))
+		}
+	}
+	// nothing survives the shutdown
+	for fn, st := range res.leaked {
+		out.inv = false
+		c.Report("C13/leak/goroutine-survives-shutdown/"+fn, fmt.Sprintf("%s: Run returned %v after the stop request, 600 ms later a goroutine of the node is still running %s [%s]", who, res.runTook, fn, st))
+	}
+	// progress while running: with a healthy DA layer, 6 DA block times after the first block both submission watermarks
+	// are close to the chain and something is DA-included
+	if aggregator && s.daf == "" && s.slow == 0 && s.xagg == 0 && len(ch) > 0 {
+		dabt := time.Duration(s.dabt) * time.Millisecond
+		if dabt == 0 {
+			dabt = time.Duration(s.bt) * time.Millisecond
+		}
+		bt := time.Duration(s.bt) * time.Millisecond
+		ran := res.stopAt.Sub(ch[0].time)
+		if ran >= 6*dabt+2*bt {
+			h := uint64(len(ch))
+			slack := uint64(4*dabt/bt) + 3
+			lh, ld := m.VerifLastSubmitted()
+			lastData := uint64(0) // the last block with transactions at least 4 DA block times old
+			for i, b := range ch {
+				if len(b.txs) > 0 && res.stopAt.Sub(b.time) >= 4*dabt+bt {
+					lastData = uint64(i + 1)
+				}
+			}
+			if os.Getenv("C13_DEBUG") != "" {
+				fmt.Fprintf(os.Stderr, "[c13] %s progress: ran=%v h=%d lh=%d ld=%d lastData=%d di=%d slack=%d\n", who, ran, h, lh, ld, lastData, m.GetDAIncludedHeight(), slack)
+			}
+			if lh+slack < h {
+				out.inv = false
+				c.Report("C13/world/submission-stalled-while-running/header", fmt.Sprintf("%s: %v after the first block, healthy DA: chain height %d, last submitted header %d (DA block time %v)", who, ran, h, lh, dabt))
+			}
+			if ld < lastData && lastData > 0 {
+				out.inv = false
+				c.Report("C13/world/submission-stalled-while-running/data", fmt.Sprintf("%s: %v after the first block, healthy DA: block %d with transactions is more than 4 DA block times old, last submitted data %d (DA block time %v)", who, ran, lastData, ld, dabt))
+			}
+			if m.GetDAIncludedHeight() == 0 && lastData > 0 {
+				out.inv = false
+				c.Report("C13/world/submission-stalled-while-running/da-included", fmt.Sprintf("%s: %v after the first block, healthy DA: chain height %d, nothing DA-included", who, ran, h))
+			}
+		}
+	}
 	return out, ch
 }
 
@@ -910,11 +1058,11 @@ func runScenario(c *hx.Ctx, s scen) outcome {
 
 func parseScen(o hx.Op) (scen, bool) {
 	s := scen{mode: o.Str("mode"), future: o.Int("future"), slow: o.Int("slow"), lazy: o.Bool("lazy"), bt: o.Int("bt"), span: o.Int("span"), prod: o.Int("prod"), xexec: o.Int("xexec"),
-		daf: o.Str("daf"), dabt: o.Int("dabt"), ttl: o.Int("ttl"), gas: o.Bool("gas")}
+		daf: o.Str("daf"), dabt: o.Int("dabt"), ttl: o.Int("ttl"), gas: o.Bool("gas"), xagg: o.Int("xagg")}
 	if s.mode != "agg" && s.mode != "full" {
 		return s, false
 	}
-	if (s.daf != "" && s.daf != "reject" && s.daf != "flaky" && s.daf != "error") || s.dabt > 60000 || s.ttl > 1000 || (s.daf != "" && s.mode != "agg") {
+	if (s.daf != "" && s.daf != "reject" && s.daf != "flaky" && s.daf != "error" && s.daf != "canceled") || s.dabt > 60000 || s.ttl > 1000 || (s.daf != "" && s.mode != "agg") {
 		return s, false
 	}
 	if s.bt < 10 || s.bt > 2000 || s.span < 50 || s.span > 20000 || s.future > 60000 || s.slow > 5000 {
@@ -924,6 +1072,9 @@ func parseScen(o hx.Op) (scen, bool) {
 		return s, false
 	}
 	if s.xexec > 2000 || (s.xexec > 0 && s.mode != "full") {
+		return s, false
+	}
+	if s.xagg > 1500 || (s.xagg > 0 && s.mode != "agg") {
 		return s, false
 	}
 	return s, true
